@@ -111,40 +111,43 @@ func (c *cluster) openFollower(n *cnode) error {
 			}
 		},
 		RegisterRemoteQueryHandler: func(db *zenodb.DB, partition int, query planner.QueryClusterFN) {
-			go func() {
-				for {
-					select {
-					case <-stopReg:
-						return
-					default:
-					}
-					if atomic.LoadInt32(&n.noQuery) == 1 {
-						time.Sleep(10 * time.Millisecond)
-						continue
-					}
-					c.mx.Lock()
-					leader := c.leader
-					c.mx.Unlock()
-					if leader == nil {
-						time.Sleep(20 * time.Millisecond)
-						continue
-					}
-					// one registration serves one query (as one gRPC stream does)
-					used := make(chan bool, 1)
-					leader.RegisterQueryHandler(partition, func(ctx context.Context, sqlString string, isSubQuery bool, subQueryResults [][]interface{}, unflat bool, onFields core.OnFields, onRow core.OnRow, onFlatRow core.OnFlatRow) (interface{}, error) {
-						defer func() { used <- true }()
-						if atomic.LoadInt32(&n.noQuery) == 1 {
-							return nil, fmt.Errorf("follower unavailable")
+			// a pool of registrations, as server.go keeps ClusterQueryConcurrency connections per follower
+			for w := 0; w < 4; w++ {
+				go func() {
+					for {
+						select {
+						case <-stopReg:
+							return
+						default:
 						}
-						return query(ctx, sqlString, isSubQuery, subQueryResults, unflat, onFields, onRow, onFlatRow)
-					})
-					select {
-					case <-used:
-					case <-stopReg:
-						return
+						if atomic.LoadInt32(&n.noQuery) == 1 {
+							time.Sleep(10 * time.Millisecond)
+							continue
+						}
+						c.mx.Lock()
+						leader := c.leader
+						c.mx.Unlock()
+						if leader == nil {
+							time.Sleep(20 * time.Millisecond)
+							continue
+						}
+						// one registration serves one query (as one gRPC stream does)
+						used := make(chan bool, 1)
+						leader.RegisterQueryHandler(partition, func(ctx context.Context, sqlString string, isSubQuery bool, subQueryResults [][]interface{}, unflat bool, onFields core.OnFields, onRow core.OnRow, onFlatRow core.OnFlatRow) (interface{}, error) {
+							defer func() { used <- true }()
+							if atomic.LoadInt32(&n.noQuery) == 1 {
+								return nil, fmt.Errorf("follower unavailable")
+							}
+							return query(ctx, sqlString, isSubQuery, subQueryResults, unflat, onFields, onRow, onFlatRow)
+						})
+						select {
+						case <-used:
+						case <-stopReg:
+							return
+						}
 					}
-				}
-			}()
+				}()
+			}
 		},
 	})
 	if err != nil {
